@@ -108,6 +108,16 @@ CLAIMED.update({
     ),
 })
 
+CLAIMED.update({
+    "C02": dict(
+        technique="must-precede path analysis of the dimension gate + constant folding of check_dim / default bounds over dim 1-5 against a frozen literature validity table (containment by value) + call-shape check of the Yadrenko variants",
+        text="On every path of set_dim the final dimension is validated before it is stored and a rejection warns; for all 17 shipped classes check_dim (folded over dim 1-5) accepts only valid "
+        "dimensions and the declared bounds of every shape parameter (folded at dim 1-4) are contained in the validity interval known from the literature, defaults inside bounds; Yadrenko variants use the "
+        "chordal lag with the model's geo_scale. These are necessary conditions of 'valid where validity is claimed'; the sign of the spectra themselves is not decided.",
+        ref="DESIGN.md section 4 C02",
+    ),
+})
+
 NOT_APPLICABLE = {
     "C01": "distributional property over seeds (ensemble mean/covariance at Monte-Carlo rate); no code-shape clause beyond those decided under C04/C11/C12 - needs sampling or quadrature, a different technique family",
 }
